@@ -959,10 +959,12 @@ impl Compiler {
             self.builder.set_span(finalizer.span);
 
             // Compile finally block
+            self.finally_depth += 1;
             self.emit_hoisted_functions(&finalizer.body)?;
             for stmt in finalizer.body.iter() {
                 self.compile_statement_impl(stmt)?;
             }
+            self.finally_depth -= 1;
 
             // FinallyEnd completes any pending return/throw
             self.builder.emit(Op::FinallyEnd);
